@@ -196,6 +196,73 @@ def serialize_fields():
     return out
 
 
+CELL_RE = re.compile(r"\b(RefCell|Cell|Mutex|RwLock|Atomic\w+|OnceCell|OnceLock|UnsafeCell|Lazy|Condvar|Once|Barrier)\b")
+
+
+def strip_test_modules(src):
+    """drops inline `mod …tests { … }` blocks (test code is not part of the library)"""
+    out, skip = [], False
+    for line in src.split("\n"):
+        if not skip and re.match(r"^(pub )?mod \w*tests? \{", line):
+            skip = True
+            continue
+        if skip:
+            if line.startswith("}"):
+                skip = False
+            continue
+        out.append(line)
+    return "\n".join(out)
+
+
+def shared_cells():
+    """every place the library can hold state that survives a call or is shared between threads:
+    struct fields of an interior-mutability type, `static` items, thread_local!, unsafe impls.
+    (file, container, name, type)"""
+    out = []
+    root = SRC
+    for dirpath, _dirs, files in sorted(os.walk(root)):
+        if "flatbuffers" in dirpath:
+            continue
+        for fn in sorted(files):
+            if not fn.endswith(".rs"):
+                continue
+            rel = os.path.relpath(os.path.join(dirpath, fn), root)
+            src = strip_test_modules(open(os.path.join(dirpath, fn)).read())
+            src_nc = "\n".join(l for l in src.split("\n") if not l.lstrip().startswith("//"))
+            for sm in re.finditer(r"^(?:pub(?:\([a-z]+\))? )?struct (\w+)(?:<[^>{]*>)? \{(.*?)^\}", src_nc, re.S | re.M):
+                for fm in re.finditer(r"^\s*(?:pub(?:\([a-z]+\))? )?(\w+): ([^\n]+?),?\s*$", sm.group(2), re.M):
+                    if CELL_RE.search(fm.group(2)):
+                        out.append((rel, sm.group(1), fm.group(1), fm.group(2).strip()))
+            for m in re.finditer(r"^\s*(?:pub(?:\([a-z]+\))? )?static (mut )?(\w+): ([^=]+?)\s*=", src_nc, re.M):
+                out.append((rel, "static mut" if m.group(1) else "static", m.group(2), " ".join(m.group(3).split())))
+            for m in re.finditer(r"thread_local!", src_nc):
+                out.append((rel, "thread_local", "", ""))
+            for m in re.finditer(r"^\s*unsafe impl(?:<[^>]*>)? (\w+) for (\w+)", src_nc, re.M):
+                out.append((rel, "manual marker impl", m.group(2), m.group(1)))
+    return out
+
+
+def lock_fns():
+    """methods of `impl Blocker`: (name, receiver, borrow_regex_manager() calls, of which let-bound,
+    direct uses of the cell or explicit drops of the guard, methods of self it calls)"""
+    src = "\n".join(l for l in read("blocker.rs").split("\n") if not l.lstrip().startswith("//"))
+    out = []
+    for im in re.finditer(r"^impl Blocker \{(.*?)^\}", src, re.S | re.M):
+        body = im.group(1)
+        starts = [(m.start(), m.group(1)) for m in re.finditer(r"^    (?:pub(?:\([a-z]+\))? )?fn (\w+)", body, re.M)]
+        for k, (pos, name) in enumerate(starts):
+            end = starts[k + 1][0] if k + 1 < len(starts) else len(body)
+            text = body[pos:end]
+            sig = text[:text.find("{")] if "{" in text else text
+            recv = "&mut self" if "&mut self" in sig else ("&self" if "&self" in sig else ("self" if re.search(r"\(\s*(mut )?self\b", sig) else ""))
+            borrows = len(re.findall(r"borrow_regex_manager\(\)", text)) - (1 if name == "borrow_regex_manager" else 0)
+            letb = len(re.findall(r"let (?:mut )?\w+ = self\.borrow_regex_manager\(\);", text))
+            direct = len(re.findall(r"self\.regex_manager\b", text)) + len(re.findall(r"drop\(\s*regex_manager\s*\)", text))
+            calls = sorted(set(re.findall(r"self\.(\w+)\(", text)))
+            out.append((name, recv, max(borrows, 0), letb, direct, calls))
+    return out
+
+
 def main():
     net = read("filters/network.rs")
     req = read("request.rs")
@@ -260,6 +327,13 @@ def main():
     L.append("/-- every HashMap/HashSet field of a `Serialize` struct of the wire format with its `serialize_with` -/")
     L.append("def hashContainerFields : List (String × String × String × String) := [" + ", ".join(
         f"({lean_str(a)}, {lean_str(b)}, {lean_str(c)}, {lean_str(d)})" for a, b, c, d in ser) + "]")
+    L.append("")
+    L.append("/-- every struct field of an interior-mutability type, every `static`, `thread_local!` and `unsafe impl` of the library: (file, container, name, type) -/")
+    L.append("def sharedCells : List (String × String × String × String) := [" + ", ".join(
+        f"({lean_str(a)}, {lean_str(b)}, {lean_str(c)}, {lean_str(d)})" for a, b, c, d in shared_cells()) + "]")
+    L.append("/-- methods of `impl Blocker`: (name, receiver, borrow_regex_manager() calls, let-bound ones, direct cell uses / guard drops, self-calls) -/")
+    L.append("def lockFns : List (String × String × Nat × Nat × Nat × List String) := [" + ", ".join(
+        f"({lean_str(n)}, {lean_str(r)}, {b}, {lb}, {d}, [" + ", ".join(lean_str(c) for c in cs) + "])" for n, r, b, lb, d, cs in lock_fns()) + "]")
     L.append("")
     L.append("end Adb.Gen")
     text = "\n".join(L) + "\n"
